@@ -377,6 +377,14 @@ class AFB2D(Function):
             lo = sfb1d(low, lh, h0_col, h1_col, mode=mode, dim=2)
             hi = sfb1d(hl, hh, h0_col, h1_col, mode=mode, dim=2)
             dx = sfb1d(lo, hi, h0_row, h1_row, mode=mode, dim=3)
+            if mode == 'per' or mode == 'periodization':
+                # For odd sizes the forward pass repeated the last row/column,
+                # which therefore also receives the gradient of its copy
+                H, W = ctx.shape
+                if dx.shape[-2] > H:
+                    dx[:,:,H-1] += dx[:,:,H]
+                if dx.shape[-1] > W:
+                    dx[:,:,:,W-1] += dx[:,:,:,W]
             if dx.shape[-2] > ctx.shape[-2] and dx.shape[-1] > ctx.shape[-1]:
                 dx = dx[:,:,:ctx.shape[-2], :ctx.shape[-1]]
             elif dx.shape[-2] > ctx.shape[-2]:
@@ -440,6 +448,10 @@ class AFB1D(Function):
 
             # Check for odd input
             if dx.shape[2] > ctx.shape:
+                if mode == 'per' or mode == 'periodization':
+                    # The forward pass repeated the last sample, which
+                    # therefore also receives the gradient of its copy
+                    dx[:, :, ctx.shape-1] += dx[:, :, ctx.shape]
                 dx = dx[:, :, :ctx.shape]
 
         return dx, None, None, None, None, None
